@@ -127,6 +127,6 @@ CLAIM = {
             "quick: at most 2 library files (about 2 000 scenarios, exhaustive: true refers to this bound); thorough: at most 3 library files (about 26 000 scenarios); "
             "the random tier adds chains of up to 8 files and layered random graphs of up to 9 files with diamonds, repeated imports, unused broken imports, sub-directories, CellML 1.1 files under a permissive importer and unrelated parser errors in imported files.",
     "note": "Trusts the harness's reference model and XML writer. A dangling local reference (unit child / variable units naming units that do not exist) is not judged. Graphs whose files import each other without an entity-level cycle are never generated (excluded by the statement). "
-            "Known defects are probed once per process; while present their triggers are kept out of the routine scenarios by construction (counted as excluded:*) and let through in a sample (matched by known.d/C07.json); a known hang is never sampled (replays/C07/slow-*.tape, run by hand). "
+            "Known defects are probed once per process; while present their triggers are kept out of the routine scenarios by construction (counted as excluded:*) and let through in a sample (matched by known_findings.json); a known hang is never sampled (replays/C07/slow-*.tape, run by hand). "
             "Hang confirmation uses a 300 s limit on the sanitised build. Liveness beyond the limits and graphs beyond the generated sizes are not covered.",
 }
